@@ -127,6 +127,8 @@ LEMMAS = [
 ]
 for _c in INBOUND + LEMMAS:
     _c.qf_feasibility = True
+for _c in INBOUND + SEND + [GOT]:
+    _c.replay = dilq.REPLAY
 
 CONTRACTS = dilq.outbound_contracts() + SEND + INBOUND + [GOT] + LEMMAS
 
